@@ -6,6 +6,7 @@ mod exprrec;
 mod exprrows;
 mod lexrec;
 mod lexrows;
+mod lsp;
 mod model;
 mod progs;
 mod report;
@@ -116,6 +117,16 @@ fn main() {
                 web::record(args[2].parse().unwrap(), args[3].parse().unwrap(), facts, &args[5], &mut rep);
                 std::fs::write(&args[6], serde_json::to_string(&rep.to_json()).unwrap()).unwrap();
             }
+        }
+        // vh lsp-replay <tlc-output> <abasic-lsp binary> <report.json>   |   vh lsp-record <seed> <n> <binary> <out.ndjson> <report.json>
+        "lsp-replay" => {
+            let text = read_input(&args[2]);
+            lsp::replay_rows(&text, &args[3], &mut rep);
+            std::fs::write(&args[4], serde_json::to_string(&rep.to_json()).unwrap()).unwrap();
+        }
+        "lsp-record" => {
+            lsp::record(args[2].parse().unwrap(), args[3].parse().unwrap(), &args[4], &args[5], &mut rep);
+            std::fs::write(&args[6], serde_json::to_string(&rep.to_json()).unwrap()).unwrap();
         }
         // vh lex-record <seed> <n> <out.ndjson>
         "lex-record" => {
